@@ -70,7 +70,7 @@ def family(pid, tier, seed):
         # grammars that NAME an elided type ("the first such token lying before the next ordinary token is matched"): no
         # re-spacing relation, the outcome is compared with the meaning; inputs put other elided tokens around the named one
         for i in range(n // 2):
-            g = GG.make_grammar(rng, "x%d" % i, extra_kinds=["token", "tokens"] if i % 2 else [], name_elided=True, ks=(0, 1, -1))
+            g = GG.make_grammar(rng, "n%d" % i, extra_kinds=["token", "tokens"] if i % 2 else [], name_elided=True, ks=(0, 1, -1))
             g["explicit"] = True
             seen = set()
             terms = GG.grammar_terms(g)
@@ -519,6 +519,8 @@ def run(pid, tier, args):
         else:
             gs = family(pid, tier, vlib.seed())
         byid = {g["id"]: g for g in gs}
+        if len(byid) != len(gs):
+            raise Infra("two grammars of the family share an id: %s" % sorted(g["id"] for g in gs if sum(1 for h in gs if h["id"] == g["id"]) > 1)[:6])
         cp = os.path.join(wd, "cases.json")
         json.dump(gs, open(cp, "w"))
         real, builderr = run_real(vhbin, wd, cp)
